@@ -290,3 +290,109 @@ package log
 //@   ensures[C01:own-level] on ==> appended[l] == old(appended[l]) + 1 && lastLevel[l] == level && lastTag[l] == tag.tag && lastFields[l] == fields
 //@   ensures[C01,C10:disabled] !on ==> appended[l] == old(appended[l]) && calls(TimeNow) == old(calls(TimeNow)) && calls(StringFromContext) == old(calls(StringFromContext)) && calls(FieldsFromContext) == old(calls(FieldsFromContext))
 //@   ensures[C11:caller] on && enableCaller && deep(up($frame, skip)) ==> lastFile[l] == frame_file(up($frame, skip)) && lastLine[l] == frame_line(up($frame, skip))
+
+// ---- C01 / C12 / C20: fan-out to appender references -----------------------------------------------
+
+// every Appender.Append / Appender.Write invocation is recorded, in order, in the ghost trace dlv
+//@ ghost var dlv Trace
+//@ ghost var lastBytes []byte
+
+//@ iface Appender.Append
+//@   requires e != nil
+//@   modifies dlv
+//@   ensures dlv == tsnoc(old(dlv), 1, ifval(this), e, e.Level.code, "")
+
+//@ iface Appender.Write
+//@   modifies dlv
+//@   ensures dlv == tsnoc(old(dlv), 2, ifval(this), sref(b), len(b), content(b))
+
+//@ iface Layout.ToBytes
+//@   requires e != nil
+//@   modifies lastBytes
+//@   ensures lastBytes == result
+
+//@ spec fun wfRefs(c *AppenderRefs) bool = forall k int :: 0 <= k && k < len(c.AppenderRefs) ==> c.AppenderRefs[k] != nil && c.AppenderRefs[k].Appender != nil
+
+//@ spec rec fun fanout(c *AppenderRefs, k int, e *Event, l Level, base Trace) Trace = k <= 0 ? base : (enable(c.AppenderRefs[k-1].Level, l) ? tsnoc(fanout(c, k-1, e, l, base), 1, ifval(c.AppenderRefs[k-1].Appender), e, l.code, "") : fanout(c, k-1, e, l, base))
+
+//@ spec rec fun fanoutW(c *AppenderRefs, k int, l Level, r int, n int, s string, base Trace) Trace = k <= 0 ? base : (enable(c.AppenderRefs[k-1].Level, l) ? tsnoc(fanoutW(c, k-1, l, r, n, s, base), 2, ifval(c.AppenderRefs[k-1].Appender), r, n, s) : fanoutW(c, k-1, l, r, n, s, base))
+
+//@ func (*AppenderRef).Append
+//@   requires c != nil && c.Appender != nil && e != nil
+//@   modifies dlv
+//@   ensures[C01:ref-filter] dlv == (enable(c.Level, e.Level) ? tsnoc(old(dlv), 1, ifval(c.Appender), e, e.Level.code, "") : old(dlv))
+
+//@ func (*AppenderRef).Write
+//@   requires c != nil && c.Appender != nil
+//@   modifies dlv
+//@   ensures[C01,C12:ref-write] dlv == tsnoc(old(dlv), 2, ifval(c.Appender), sref(b), len(b), content(b))
+
+//@ func (*AppenderRefs).sendToAppenders
+//@   requires c != nil && e != nil && wfRefs(c)
+//@   modifies dlv
+//@   ensures[C01:fanout] dlv == fanout(c, len(c.AppenderRefs), e, e.Level, old(dlv))
+//@   loop 1 invariant[C01:range] 0 <= $k && $k <= len(c.AppenderRefs)
+//@   loop 1 invariant[C01:prefix] dlv == fanout(c, $k, e, e.Level, old(dlv))
+
+//@ func (*AppenderRefs).writeToAppenders
+//@   requires c != nil && wfRefs(c)
+//@   modifies dlv
+//@   ensures[C01:fanout-raw] dlv == fanoutW(c, len(c.AppenderRefs), l, sref(b), len(b), content(b), old(dlv))
+//@   loop 1 invariant[C01:range] 0 <= $k && $k <= len(c.AppenderRefs)
+//@   loop 1 invariant[C01:prefix] dlv == fanoutW(c, $k, l, sref(b), len(b), content(b), old(dlv))
+
+// ---- C01 / C03 / C20: loggers and appenders ---------------------------------------------------------
+
+//@ func (*Event).Reset
+//@   requires e != nil
+//@   modifies *e
+//@   ensures[C03:reset] e.Level == NoneLevel && e.Tag == "" && e.Fields == nil && e.CtxFields == nil && e.File == "" && e.Line == 0 && e.CtxString == ""
+
+//@ func PutEvent
+//@   requires e != nil
+//@   modifies *e, pooled[e]
+//@   ensures[C03:released] pooled[e]
+//@   ensures[C03:reset] e.Level == NoneLevel && e.Tag == "" && e.Fields == nil && e.CtxFields == nil && e.File == "" && e.Line == 0 && e.CtxString == ""
+
+//@ func (*SyncLogger).Append
+//@   requires c != nil && e != nil && !pooled[e] && wfRefs(c.AppenderRefs)
+//@   let on = enable(c.Level, e.Level)
+//@   let lvl = e.Level
+//@   let n = len(c.AppenderRefs.AppenderRefs)
+//@   modifies dlv, lastBytes, *e, pooled[e]
+//@   ensures[C01,C20:sync-events] c.Layout == nil ==> dlv == (on ? fanout(c.AppenderRefs, n, e, lvl, old(dlv)) : old(dlv))
+//@   ensures[C01,C20:sync-layout] c.Layout != nil ==> dlv == (on ? fanoutW(c.AppenderRefs, n, lvl, sref(lastBytes), len(lastBytes), content(lastBytes), old(dlv)) : old(dlv))
+//@   ensures[C03:consumed] pooled[e]
+
+//@ func (*ConsoleAppender).Write
+//@   requires Stdout != nil
+//@   modifies sink
+//@   ensures[C03,C12,C20:one-write] sink == tsnoc(old(sink), 3, ifval(Stdout), sref(b), len(b), content(b))
+
+//@ func (*ConsoleAppender).Append
+//@   requires c != nil && c.Layout != nil && e != nil && Stdout != nil
+//@   modifies sink, lastBytes
+//@   ensures[C03,C20:one-line] sink == tsnoc(old(sink), 3, ifval(Stdout), sref(lastBytes), len(lastBytes), content(lastBytes))
+
+//@ func (*ConsoleLogger).Append
+//@   requires c != nil && e != nil && c.ConsoleAppender.Layout != nil && Stdout != nil
+//@   modifies sink, lastBytes
+//@   ensures[C01:console-gate] !enable(c.Level, e.Level) ==> sink == old(sink)
+//@   ensures[C01,C20:console-once] enable(c.Level, e.Level) ==> sink == tsnoc(old(sink), 3, ifval(Stdout), sref(lastBytes), len(lastBytes), content(lastBytes))
+
+//@ func (*FileAppender).Write
+//@   requires c != nil
+//@   modifies sink
+//@   nopanic[C19]
+//@   ensures[C03,C12,C20:one-write] sink == tsnoc(old(sink), 3, c.file, sref(b), len(b), content(b))
+
+//@ func (*FileAppender).Append
+//@   requires c != nil && c.Layout != nil && e != nil
+//@   modifies sink, lastBytes
+//@   ensures[C03,C20:one-line] sink == tsnoc(old(sink), 3, c.file, sref(lastBytes), len(lastBytes), content(lastBytes))
+
+//@ func (*FileLogger).Append
+//@   requires c != nil && e != nil && c.FileAppender.Layout != nil
+//@   modifies sink, lastBytes
+//@   ensures[C01:file-gate] !enable(c.Level, e.Level) ==> sink == old(sink)
+//@   ensures[C01,C20:file-once] enable(c.Level, e.Level) ==> sink == tsnoc(old(sink), 3, c.FileAppender.file, sref(lastBytes), len(lastBytes), content(lastBytes))
